@@ -120,6 +120,11 @@ func (p MkLineParser) matchVarassign(line *Line, text string, splitResult *mkLin
 	}
 	op := NewMkOperator(lexer.Since(opStart))
 
+	if line.IsMultiline() && !contains(line.raw[0].Orig(), "=") {
+		// The operator is in a continuation line; not worth the trouble.
+		return false, nil
+	}
+
 	if hasSuffix(varname, "+") && op == opAssign && spaceAfterVarname == "" {
 		varname = varname[:len(varname)-1]
 		op = opAssignAppend
